@@ -30,6 +30,14 @@ fn ang_dist(t1: f64, t2: f64) -> f64 {
     if d < 0.0 { d += 2.0 * PI; }
     d.min(2.0 * PI - d)
 }
+/// how far the library's own `tb − ta` may legitimately be from the exact difference: the subtraction snaps only when the
+/// remainders are within 1e-15 of each other (to an exact blade difference) or when the difference's remainder lands within
+/// 1e-10 of a quarter turn; everywhere else it is exact up to a couple of roundings
+fn diff_tol(a: &Angle, b: &Angle) -> f64 {
+    let d = b.rem() - a.rem();
+    let dr = if d < 0.0 { d + QP } else { d };
+    if (QP - dr) < 2e-10 { 1.0e-10 + 1e-15 } else if d.abs() < 1.1e-15 { 1.2e-15 } else { 2e-15 }
+}
 fn catches<T, Fn_: FnOnce() -> T + std::panic::UnwindSafe>(f: Fn_) -> Option<T> { std::panic::catch_unwind(f).ok() }
 fn in_dom(m: f64) -> bool { m == 0.0 || (m >= 1e-100 && m <= 1e100) }
 /// moderate-magnitude pair (products stay far from overflow/underflow, so relative tolerances are meaningful)
@@ -237,8 +245,10 @@ fn c09_dot(v: &[Val]) -> Result<bool, String> {
     if d.mag > ab * (1.0 + 4.0 * EPS) { return Err(format!("|a.b| = {:e} exceeds |a||b| = {:e}", d.mag, ab)); }
     let want = ab * (ga(&b.angle) - ga(&a.angle)).cos();
     let got = if d.angle.blade() == 2 { -d.mag } else { d.mag };
-    let tol = ab * (2.0 * TOL + 16.0 * EPS);
+    let tol = ab * (diff_tol(&a.angle, &b.angle) + 16.0 * EPS);
     if (got - want).abs() > tol { return Err(format!("a.b = {:e} but |a||b|cos = {:e}", got, want)); }
+    if ab == 0.0 && d.angle.blade() != 0 { return Err("a zero dot product (non-negative value) is not at angle 0".into()); }
+    let tol = tol + ab * diff_tol(&b.angle, &a.angle);
     let e = b.dot(&a);
     let got2 = if e.angle.blade() == 2 { -e.mag } else { e.mag };
     if (got - got2).abs() > tol { return Err(format!("a.b = {:e} but b.a = {:e}", got, got2)); }
@@ -254,14 +264,14 @@ fn c10_wedge(v: &[Val]) -> Result<bool, String> {
     let ab = a.mag * b.mag;
     let delta = ga(&b.angle) - ga(&a.angle);
     let sn = delta.sin();
-    let tol = ab * (2.0 * TOL + 16.0 * EPS);
+    let tol = ab * (diff_tol(&a.angle, &b.angle) + 16.0 * EPS);
     if (w.mag - ab * sn.abs()).abs() > tol { return Err(format!("|a^b| = {:e} but |a||b||sin| = {:e}", w.mag, ab * sn.abs())); }
     let base = a.angle + b.angle + Angle::new(1.0, 2.0);
     if sn.abs() > 1e-9 {
         let want = if sn < 0.0 { base + Angle::new(1.0, 1.0) } else { base };
         if !same_angle(&w.angle, &want) { return Err(format!("wedge angle {} but ta+tb+pi/2{} = {}", show_a(&w.angle), if sn < 0.0 { "+pi" } else { "" }, show_a(&want))); }
         let x = b.wedge(&a);
-        if (x.mag - w.mag).abs() > tol { return Err("swapping the wedge operands changed the magnitude".into()); }
+        if (x.mag - w.mag).abs() > tol + ab * diff_tol(&b.angle, &a.angle) { return Err("swapping the wedge operands changed the magnitude".into()); }
         if (x.angle.blade() as i128 - w.angle.blade() as i128).abs() != 2 { return Err(format!("swapping the wedge operands moved the blade count from {} to {}", w.angle.blade(), x.angle.blade())); }
     } else if !same_angle(&w.angle, &base) && !same_angle(&w.angle, &(base + Angle::new(1.0, 1.0))) {
         return Err("wedge angle is neither ta+tb+pi/2 nor that plus pi".into());
@@ -291,7 +301,7 @@ fn c11_project(v: &[Val]) -> Result<bool, String> {
         if !same_angle(&p.angle, &want) { return Err(format!("projection angle {} but cos = {:e} wants {}", show_a(&p.angle), c, show_a(&want))); }
     }
     if !moderate(&a) { return Ok(false); }
-    let tol = a.mag * (2.0 * TOL + 16.0 * EPS);
+    let tol = a.mag * (diff_tol(&a.angle, &b.angle) + 16.0 * EPS);
     if (p.mag - a.mag * c.abs()).abs() > tol { return Err(format!("|proj| = {:e} but |a||cos| = {:e}", p.mag, a.mag * c.abs())); }
     // decomposition: proj + rej = a, rej ⟂ b, Pythagoras
     let (px, py) = cart(&p); let (rx, ry) = cart(&rj); let (ax, ay) = cart(&a);
@@ -310,7 +320,7 @@ fn c11_angle(v: &[Val]) -> Result<bool, String> {
     let g = v[0].g().unwrap(); let onto = v[1].a().unwrap();
     let c = (ga(&onto) - ga(&g.angle)).cos();
     let got = g.angle.project(onto);
-    if (got - c).abs() > 2.0 * TOL + 8.0 * EPS { return Err(format!("Angle::project = {:e} but cos of the difference = {:e}", got, c)); }
+    if (got - c).abs() > diff_tol(&g.angle, &onto) + 8.0 * EPS { return Err(format!("Angle::project = {:e} but cos of the difference = {:e}", got, c)); }
     let p = g.project_to_angle(onto);
     mag_ok("project_to_angle", p.mag)?;
     if p.angle.rem() != 0.0 || (p.angle.blade() != 0 && p.angle.blade() != 2) { return Err(format!("project_to_angle angle {}", show_a(&p.angle))); }
@@ -443,6 +453,10 @@ fn c15_trig(v: &[Val]) -> Result<bool, String> {
     if s.angle.rem() != 0.0 || (s.angle.blade() != 1 && s.angle.blade() != 3) { return Err(format!("sin angle {}", show_a(&s.angle))); }
     let cv = if c.angle.blade() == 2 { -c.mag } else { c.mag };
     let sv = if s.angle.blade() == 3 { -s.mag } else { s.mag };
+    let tl = a.grade_angle();
+    if c.mag.to_bits() != tl.cos().abs().to_bits() || s.mag.to_bits() != tl.sin().abs().to_bits() {
+        return Err(format!("cos/sin magnitudes {:e}/{:e} are not |cos t|/|sin t| = {:e}/{:e}", c.mag, s.mag, tl.cos().abs(), tl.sin().abs()));
+    }
     if (cv - t.cos()).abs() > 4.0 * EPS || (sv - t.sin()).abs() > 4.0 * EPS { return Err(format!("cos/sin = {:e}/{:e} but the trig values are {:e}/{:e}", cv, sv, t.cos(), t.sin())); }
     if (c.mag * c.mag + s.mag * s.mag - 1.0).abs() > 8.0 * EPS { return Err("cos^2 + sin^2 != 1".into()); }
     let tn = catches(move || Geonum::tan(a));
@@ -457,7 +471,7 @@ fn c15_trig(v: &[Val]) -> Result<bool, String> {
                 if (y2.mag - x.mag).abs() > 1e-9 * (1.0 + x.mag) { return Err("tan does not have period pi".into()); }
             }
         }
-        (None, None) => {}
+        (None, None) => return Err("tan panicked (the cosine of a binary64 grade angle is never exactly zero)".into()),
         _ => return Err("tan and sin.div(cos) disagree on panicking".into()),
     }
     Ok(a.rem() != 0.0)
